@@ -27,13 +27,42 @@ pub struct LogEntry {
     pub observed: Vec<NVal>,
     pub scalar: Option<u32>,
     pub returned: Ret,
+    /// methods with a callback: the value the implementation handed to the callback
+    pub cb_passed: Option<NVal>,
+    /// ... and what the callback gave back to the implementation
+    pub cb_got: Option<NVal>,
+    /// false while the implementation is still inside the callback (the call never came back)
+    pub finished: bool,
 }
 
 thread_local! {
     pub static LOG: RefCell<Vec<LogEntry>> = const { RefCell::new(Vec::new()) };
 }
 pub fn log(method: &'static str, observed: Vec<NVal>, scalar: Option<u32>, returned: Ret) {
-    LOG.with(|l| l.borrow_mut().push(LogEntry { method, observed, scalar, returned }));
+    LOG.with(|l| l.borrow_mut().push(LogEntry { method, observed, scalar, returned, cb_passed: None, cb_got: None, finished: true }));
+}
+pub fn log_begin_cb(method: &'static str, observed: Vec<NVal>, passed: NVal) {
+    LOG.with(|l| l.borrow_mut().push(LogEntry { method, observed, scalar: None, returned: Ret::Unit, cb_passed: Some(passed), cb_got: None, finished: false }));
+}
+pub fn log_end_cb(got: Option<NVal>, returned: Ret) {
+    LOG.with(|l| {
+        if let Some(e) = l.borrow_mut().last_mut() {
+            e.cb_got = got;
+            e.returned = returned;
+            e.finished = true;
+        }
+    });
+}
+
+thread_local! {
+    /// what the CALLER-side closures received and answered
+    pub static CBLOG: RefCell<Vec<(NVal, Option<NVal>)>> = const { RefCell::new(Vec::new()) };
+}
+pub fn cb_log(received: NVal, answered: Option<NVal>) {
+    CBLOG.with(|l| l.borrow_mut().push((received, answered)));
+}
+pub fn take_cb_log() -> Vec<(NVal, Option<NVal>)> {
+    CBLOG.with(|l| std::mem::take(&mut *l.borrow_mut()))
 }
 pub fn take_log() -> Vec<LogEntry> {
     LOG.with(|l| std::mem::take(&mut *l.borrow_mut()))
